@@ -10,5 +10,6 @@ CONSTANTS
   Cfg0 <- Cfg0Live
   Cfgs <- AllCfgs
   Bud0 <- BudLiveK
+  OwnEntryCheck = TRUE
 INVARIANTS TypeOK HeartbeatFresh
 PROPERTIES Recovers ReRegisters
